@@ -89,6 +89,28 @@ def distinguishable_reactants(rsmi):
     return True
 
 
+CHARGE_CASES = ["[Fe+2]>>[Fe+3]", "C[O-]>>C[O]", "[Cu+].O>>[Cu+2].O", "[Na+].[Cl-]>>[Na]Cl", "CC(=O)[O-].[H+]>>CC(=O)O", "[NH4+]>>N"]
+
+
+def partly_unmapped(rsmi, rng):
+    """a partially mapped variant of the kind expand_aam is written for: one by-product fragment is not drawn (its atoms lose their map
+    numbers on the reactant side) and an unmapped spectator molecule is added to the reactants, so that two different reactant
+    molecules carry unmapped atoms"""
+    r, p = rsmi.split(">>")
+    pf = p.split(".")
+    if len(pf) < 2:
+        return None, set()
+    gone = min(pf, key=len)
+    maps = set(re.findall(r":(\d+)\]", gone))
+    keep = [f for f in pf if f is not gone]
+    if not maps or not keep:
+        return None, set()
+    out_r = r
+    for m in maps:
+        out_r = re.sub(r"\[([A-Za-z][a-z]?)(H\d?)?([+-]\d?)?:%s\]" % m, lambda mo: "[" + mo.group(1) + (mo.group(2) or "") + (mo.group(3) or "") + "]", out_r)
+    return out_r + ".CN(C)C>>" + ".".join(keep), maps
+
+
 def check_reaction(tw, rsmi, fails, rng, tags, canons, std):
     def bad(fn, msg, clause, extra=None):
         fails.append({"function": fn, "violations": ["%s: %s" % (clause, msg)], "rsmi": rsmi, "tags": dict(tags, clause=clause, **(extra or {}))})
@@ -150,6 +172,18 @@ def check_reaction(tw, rsmi, fails, rng, tags, canons, std):
                 nontriv = 1
         except Exception as ex:
             bad("CanonRSMI.canonicalise", "raised %r on a renumbered input (%s)" % (ex, be), "canon-invariant", {"backend": be})
+    # partially mapped input: unmapped reactant atoms get fresh map numbers; the result must still be a reaction with the same molecules
+    try:
+        pm, dropped = partly_unmapped(rsmi, rng)
+        if dropped:
+            want_p = std.fit(pm)
+            for be, canon in canons.items():
+                out_p = canon.canonicalise(pm).canonical_rsmi
+                if out_p is None or "None" in str(out_p) or ">>" not in str(out_p) or (want_p is not None and std.fit(out_p) != want_p):
+                    bad("CanonRSMI.canonicalise", "%s: partially mapped input %s gives %s (unmapped reaction %s expected)" % (be, pm, out_p, want_p), "canon-partial-maps", {"backend": be})
+                    break
+    except Exception as ex:
+        bad("CanonRSMI.canonicalise", "raised %r on a partially mapped input" % (ex,), "canon-partial-maps")
     # --- standardisation ---
     try:
         if unm is not None:
@@ -214,7 +248,7 @@ def check_reaction(tw, rsmi, fails, rng, tags, canons, std):
             variants_b.append(".".join(r.split(".")[1:]) + ">>" + p)                 # a fragment deleted
         variants_b.append(r + "." + r.split(".")[0] + ">>" + p)                        # a fragment duplicated
         variants_b.append(r + "." + r.split(".")[0] + ">>" + p + "." + r.split(".")[0])  # duplicated on both sides (stays balanced iff it was)
-        for v in variants_b:
+        for v in variants_b + CHARGE_CASES:
             want = exact_balanced(v)
             got = BalanceReactionCheck.rsmi_balance_check(v)
             if want is not None and bool(got) != want:
